@@ -252,9 +252,11 @@ def build(scn, ctx, result_factory=None):
                 ctx.in_call()  # a slow call: many more opportunities for the others
             if spec and a <= spec["n"]:
                 exc = EXC_TYPES[spec["exc"]](f"fail n{i} a{a}")
-                b.raised.setdefault(i, []).append(exc)
+                weak = getattr(ctx, "weak_exc", False)  # C16: the harness must not keep the exception (and, through its traceback, the arguments) alive
+                if not weak:
+                    b.raised.setdefault(i, []).append(exc)
                 ctx.log("end", n=i, a=a, ok=False, x=len(ctx.exc_ids))
-                ctx.exc_ids.append(exc)
+                ctx.exc_ids.append(id(exc) if weak else exc)
                 raise exc
             if result_factory:
                 val = result_factory(i, args, kwargs)
